@@ -257,6 +257,65 @@ pub fn h_clean_n2_a3() {
     clean_scenario(2, 3, 2, true, 2);
 }
 
+/// A cleaning action panics at a symbolic invocation (C07): the panic reaches the caller of clean() / drop / collect_cycles,
+/// the collector stays usable and no action runs twice.
+#[no_mangle]
+pub fn h_clean_panic() {
+    use crate::h_panic::{arm, disarm, oracle_idle};
+    let n = 2;
+    for i in 0..n {
+        new_node(i);
+    }
+    let t = any_below(n as u8 + 1) as usize;
+    if t < n {
+        set_slot(0, 0, t);
+    }
+    set_slot(1, 0, 0);
+    for k in 0..3 {
+        let owner = any_below(n as u8) as usize;
+        let kind = if any_below(2) == 1 { A_ALLOC } else { A_NOOP };
+        register(k, owner, kind, n);
+    }
+    let k = any_u8();
+    assume(k >= 1 && k <= 3);
+    arm(K_ACTION, k as u32);
+    // a manual clean() of one action
+    let c = any_below(4) as usize;
+    if c < 3 {
+        let fired0 = w().fault_fired;
+        let p = guarded(|| {
+            if let Some(cl) = &acts().cleanable[c] {
+                cl.clean();
+            }
+        });
+        check(p == (w().fault_fired > fired0), 201); // the panic reaches the caller of clean()
+        oracle_clean(200);
+    }
+    for i in 0..n {
+        if any_below(2) == 1 {
+            let fired0 = w().fault_fired;
+            let p = guarded(|| drop_h(i));
+            check(p == (w().fault_fired > fired0), 301);
+            oracle_safety(300);
+            oracle_clean(300);
+        }
+    }
+    let fired0 = w().fault_fired;
+    let p = guarded(|| collect_cycles());
+    check(p == (w().fault_fired > fired0), 401);
+    disarm();
+    oracle_idle(400);
+    oracle_safety(400);
+    oracle_clean(400);
+    for i in 0..n {
+        guarded(|| drop_h(i));
+    }
+    guarded(|| collect_quiescent(4, 500));
+    oracle_safety(500);
+    oracle_clean(500);
+    cover(1);
+}
+
 #[no_mangle]
 pub fn h_clean_twin() {
     clean_scenario(1, 1, 2, false, 4);
